@@ -1,7 +1,407 @@
 package main
 
-// File-system model (filled in with the AOF checks).
+// File-system model: a map name -> in-memory file whose bytes are terms and
+// whose length is concrete.  os.File values are pointers to a cell holding a
+// *FileObj.  Every mutation (create, write, truncate, remove, rename, mkdir) is
+// appended to a log together with a snapshot, so that a harness can restore
+// "the directory as it was after the i-th mutation" (a crash image).
 
-type FSModel struct{}
+import (
+	"fmt"
+	"go/types"
+	"path/filepath"
+	"sort"
+	"strings"
 
-func registerFSStubs() {}
+	"golang.org/x/tools/go/ssa"
+)
+
+type MemFile struct {
+	data  []*Term
+	isDir bool
+}
+
+type FileObj struct {
+	name   string
+	pos    int
+	closed bool
+	appendMode bool
+	wr     bool
+}
+
+type fsSnapshot struct {
+	op    string
+	files map[string]*MemFile
+}
+
+type FSModel struct {
+	files map[string]*MemFile
+	log   []fsSnapshot
+	short int // >0: reads return at most this many bytes (short-read mode)
+}
+
+func (e *Exec) fsm() *FSModel {
+	if e.fs == nil {
+		e.fs = &FSModel{files: map[string]*MemFile{}}
+	}
+	return e.fs
+}
+
+func (fs *FSModel) copyFiles() map[string]*MemFile {
+	m := map[string]*MemFile{}
+	for k, f := range fs.files {
+		m[k] = &MemFile{data: append([]*Term(nil), f.data...), isDir: f.isDir}
+	}
+	return m
+}
+
+func (fs *FSModel) mutated(op string) {
+	fs.log = append(fs.log, fsSnapshot{op, fs.copyFiles()})
+}
+
+func (e *Exec) errNotExist(name string) Value {
+	return e.mkError("open " + name + ": no such file or directory")
+}
+
+func (e *Exec) ioEOF() Value {
+	p := e.prog.ImportedPackage("io")
+	if p == nil {
+		panic(unsupported("io package not loaded"))
+	}
+	g := p.Var("EOF")
+	return copyVal(*e.global(g))
+}
+
+func (e *Exec) fileObj(v Value) *FileObj {
+	p, ok := v.(*Value)
+	if !ok || p == nil {
+		panic(targetPanic{v: "invalid argument: nil *os.File", kind: "nil pointer dereference", fn: e.curFn()})
+	}
+	fo, ok := (*p).(*FileObj)
+	if !ok {
+		panic(unsupported("os.File not created by the file-system model"))
+	}
+	return fo
+}
+
+func (e *Exec) mkFileInfo(name string, f *MemFile) Value {
+	osPkg := e.prog.ImportedPackage("os")
+	t := osPkg.Type("fileStat")
+	st := e.zero(t.Type()).(Struct)
+	ut := t.Type().Underlying().(*types.Struct)
+	for i := 0; i < ut.NumFields(); i++ {
+		switch ut.Field(i).Name() {
+		case "name":
+			st[i] = filepath.Base(name)
+		case "size":
+			st[i] = e.ts.Const(64, uint64(len(f.data)))
+		case "mode":
+			if f.isDir {
+				st[i] = e.ts.Const(32, uint64(1)<<31|0755)
+			} else {
+				st[i] = e.ts.Const(32, 0644)
+			}
+		}
+	}
+	p := new(Value)
+	*p = st
+	return Iface{t: types.NewPointer(t.Type()), v: p}
+}
+
+func nilErr() Value { return Iface{} }
+
+func registerFSStubs() {
+	stubs["os.Stat"] = func(e *Exec, fn *ssa.Function, a []Value) Value {
+		name := argStr(a[0])
+		f, ok := e.fsm().files[name]
+		if !ok {
+			return Tuple{Iface{}, e.errNotExist(name)}
+		}
+		return Tuple{e.mkFileInfo(name, f), nilErr()}
+	}
+	stubs["os.IsNotExist"] = func(e *Exec, fn *ssa.Function, a []Value) Value {
+		iv := a[0].(Iface)
+		if iv.t == nil {
+			return e.ts.False
+		}
+		return e.ts.Bool(strings.Contains(e.describe(iv), "no such file"))
+	}
+	stubs["os.Mkdir"] = func(e *Exec, fn *ssa.Function, a []Value) Value {
+		name := argStr(a[0])
+		fs := e.fsm()
+		if _, ok := fs.files[name]; ok {
+			return e.mkError("mkdir " + name + ": file exists")
+		}
+		fs.files[name] = &MemFile{isDir: true}
+		fs.mutated("mkdir " + name)
+		return nilErr()
+	}
+	stubs["os.OpenFile"] = func(e *Exec, fn *ssa.Function, a []Value) Value {
+		name := argStr(a[0])
+		flag := int(a[1].(*Term).c)
+		fs := e.fsm()
+		const oWRONLY, oRDWR, oAPPEND, oCREATE, oTRUNC = 0x1, 0x2, 0x400, 0x40, 0x200
+		f, ok := fs.files[name]
+		if !ok {
+			if flag&oCREATE == 0 {
+				return Tuple{(*Value)(nil), e.errNotExist(name)}
+			}
+			f = &MemFile{}
+			fs.files[name] = f
+			fs.mutated("create " + name)
+		} else if flag&oTRUNC != 0 && len(f.data) > 0 {
+			f.data = nil
+			fs.mutated("truncate " + name)
+		}
+		fo := &FileObj{name: name, appendMode: flag&oAPPEND != 0, wr: flag&(oWRONLY|oRDWR) != 0}
+		p := new(Value)
+		*p = fo
+		return Tuple{p, nilErr()}
+	}
+	stubs["os.Open"] = func(e *Exec, fn *ssa.Function, a []Value) Value {
+		return stubs["os.OpenFile"](e, fn, []Value{a[0], e.ts.Const(64, 0), e.ts.Const(32, 0)})
+	}
+	stubs["os.Create"] = func(e *Exec, fn *ssa.Function, a []Value) Value {
+		return stubs["os.OpenFile"](e, fn, []Value{a[0], e.ts.Const(64, 0x2|0x40|0x200), e.ts.Const(32, 0666)})
+	}
+	stubs["(*os.File).Write"] = func(e *Exec, fn *ssa.Function, a []Value) Value {
+		fo := e.fileObj(a[0])
+		fs := e.fsm()
+		f, ok := fs.files[fo.name]
+		if fo.closed || !ok {
+			return Tuple{e.ts.Const(64, 0), e.mkError("write " + fo.name + ": file already closed")}
+		}
+		buf := a[1].(Slice)
+		if fo.appendMode {
+			fo.pos = len(f.data)
+		}
+		for i, b := range buf {
+			t := b.(*Term)
+			if fo.pos+i < len(f.data) {
+				f.data[fo.pos+i] = t
+			} else {
+				f.data = append(f.data, t)
+			}
+		}
+		fo.pos += len(buf)
+		if len(buf) > 0 {
+			fs.mutated(fmt.Sprintf("write %s %d", fo.name, len(buf)))
+		}
+		return Tuple{e.ts.Const(64, uint64(len(buf))), nilErr()}
+	}
+	stubs["(*os.File).Read"] = func(e *Exec, fn *ssa.Function, a []Value) Value {
+		fo := e.fileObj(a[0])
+		fs := e.fsm()
+		f, ok := fs.files[fo.name]
+		if fo.closed || !ok {
+			return Tuple{e.ts.Const(64, 0), e.mkError("read " + fo.name + ": file already closed")}
+		}
+		buf := a[1].(Slice)
+		if len(buf) == 0 {
+			return Tuple{e.ts.Const(64, 0), nilErr()}
+		}
+		rem := len(f.data) - fo.pos
+		if rem <= 0 {
+			return Tuple{e.ts.Const(64, 0), e.ioEOF()}
+		}
+		n := len(buf)
+		if rem < n {
+			n = rem
+		}
+		if fs.short > 0 && n > fs.short {
+			n = fs.short
+		}
+		for i := 0; i < n; i++ {
+			buf[i] = f.data[fo.pos+i]
+		}
+		fo.pos += n
+		return Tuple{e.ts.Const(64, uint64(n)), nilErr()}
+	}
+	stubs["(*os.File).ReadAt"] = func(e *Exec, fn *ssa.Function, a []Value) Value {
+		fo := e.fileObj(a[0])
+		f, ok := e.fsm().files[fo.name]
+		if fo.closed || !ok {
+			return Tuple{e.ts.Const(64, 0), e.mkError("read " + fo.name + ": file already closed")}
+		}
+		buf := a[1].(Slice)
+		off := int(e.concretize(a[2].(*Term), 300, "ReadAt offset"))
+		n := 0
+		for i := range buf {
+			if off+i >= len(f.data) || off+i < 0 {
+				break
+			}
+			buf[i] = f.data[off+i]
+			n++
+		}
+		if n < len(buf) {
+			return Tuple{e.ts.Const(64, uint64(n)), e.ioEOF()}
+		}
+		return Tuple{e.ts.Const(64, uint64(n)), nilErr()}
+	}
+	stubs["(*os.File).Close"] = func(e *Exec, fn *ssa.Function, a []Value) Value {
+		p, _ := a[0].(*Value)
+		if p == nil {
+			return e.mkError("invalid argument")
+		}
+		fo := e.fileObj(a[0])
+		if fo.closed {
+			return e.mkError("close " + fo.name + ": file already closed")
+		}
+		fo.closed = true
+		return nilErr()
+	}
+	stubs["(*os.File).Sync"] = func(e *Exec, fn *ssa.Function, a []Value) Value { return nilErr() }
+	stubs["(*os.File).Truncate"] = func(e *Exec, fn *ssa.Function, a []Value) Value {
+		fo := e.fileObj(a[0])
+		fs := e.fsm()
+		f, ok := fs.files[fo.name]
+		if !ok {
+			return e.errNotExist(fo.name)
+		}
+		n := int(e.concretize(a[1].(*Term), 300, "Truncate size"))
+		if n < len(f.data) {
+			f.data = f.data[:n]
+		}
+		fs.mutated(fmt.Sprintf("truncate %s %d", fo.name, n))
+		return nilErr()
+	}
+	stubs["(*os.File).Stat"] = func(e *Exec, fn *ssa.Function, a []Value) Value {
+		fo := e.fileObj(a[0])
+		f, ok := e.fsm().files[fo.name]
+		if !ok {
+			return Tuple{Iface{}, e.errNotExist(fo.name)}
+		}
+		return Tuple{e.mkFileInfo(fo.name, f), nilErr()}
+	}
+	stubs["(*os.File).Name"] = func(e *Exec, fn *ssa.Function, a []Value) Value { return e.fileObj(a[0]).name }
+	stubs["os.Remove"] = func(e *Exec, fn *ssa.Function, a []Value) Value {
+		name := argStr(a[0])
+		fs := e.fsm()
+		if _, ok := fs.files[name]; !ok {
+			return e.errNotExist(name)
+		}
+		delete(fs.files, name)
+		fs.mutated("remove " + name)
+		return nilErr()
+	}
+	stubs["os.Rename"] = func(e *Exec, fn *ssa.Function, a []Value) Value {
+		from, to := argStr(a[0]), argStr(a[1])
+		fs := e.fsm()
+		f, ok := fs.files[from]
+		if !ok {
+			return e.errNotExist(from)
+		}
+		if t, ok := fs.files[to]; ok && t.isDir {
+			return e.mkError("rename " + from + " " + to + ": file exists")
+		}
+		delete(fs.files, from)
+		fs.files[to] = f
+		fs.mutated("rename " + from + " " + to)
+		return nilErr()
+	}
+	stubs["path/filepath.Join"] = func(e *Exec, fn *ssa.Function, a []Value) Value {
+		var parts []string
+		for _, x := range a[0].(Slice) {
+			parts = append(parts, argStr(x))
+		}
+		return filepath.Join(parts...)
+	}
+	stubs["path/filepath.Abs"] = func(e *Exec, fn *ssa.Function, a []Value) Value {
+		p := argStr(a[0])
+		if !filepath.IsAbs(p) {
+			p = filepath.Join("/vfcwd", p)
+		}
+		return Tuple{filepath.Clean(p), nilErr()}
+	}
+	stubs["path/filepath.Base"] = func(e *Exec, fn *ssa.Function, a []Value) Value { return filepath.Base(argStr(a[0])) }
+	stubs["path/filepath.Walk"] = func(e *Exec, fn *ssa.Function, a []Value) Value {
+		root := argStr(a[0])
+		fs := e.fsm()
+		var names []string
+		for n := range fs.files {
+			if n == root || strings.HasPrefix(n, strings.TrimSuffix(root, "/")+"/") {
+				names = append(names, n)
+			}
+		}
+		sort.Strings(names)
+		if _, ok := fs.files[root]; !ok {
+			r := e.call(a[1], []Value{root, Iface{}, e.errNotExist(root)})
+			return r
+		}
+		for _, n := range names {
+			f, ok := fs.files[n]
+			if !ok {
+				continue // removed by the callback
+			}
+			r := e.call(a[1], []Value{n, e.mkFileInfo(n, f), nilErr()})
+			if iv, ok := r.(Iface); ok && iv.t != nil {
+				return r
+			}
+		}
+		return nilErr()
+	}
+
+	// harness intrinsics for the file-system model
+	intrinsics["vfFSDir"] = func(e *Exec, fn *ssa.Function, a []Value) Value {
+		fs := e.fsm()
+		if _, ok := fs.files["/vfdata"]; !ok {
+			fs.files["/vfdata"] = &MemFile{isDir: true}
+		}
+		return "/vfdata"
+	}
+	intrinsics["vfFSWrite"] = func(e *Exec, fn *ssa.Function, a []Value) Value {
+		name := argStr(a[0])
+		var data []*Term
+		for _, b := range a[1].(Slice) {
+			data = append(data, b.(*Term))
+		}
+		e.fsm().files[name] = &MemFile{data: data}
+		return nil
+	}
+	intrinsics["vfFSRead"] = func(e *Exec, fn *ssa.Function, a []Value) Value {
+		f, ok := e.fsm().files[argStr(a[0])]
+		if !ok {
+			return Slice(nil)
+		}
+		s := make(Slice, len(f.data))
+		for i, t := range f.data {
+			s[i] = t
+		}
+		return s
+	}
+	intrinsics["vfFSExists"] = func(e *Exec, fn *ssa.Function, a []Value) Value {
+		_, ok := e.fsm().files[argStr(a[0])]
+		return e.ts.Bool(ok)
+	}
+	intrinsics["vfFSRemove"] = func(e *Exec, fn *ssa.Function, a []Value) Value {
+		delete(e.fsm().files, argStr(a[0]))
+		return nil
+	}
+	intrinsics["vfFSMutations"] = func(e *Exec, fn *ssa.Function, a []Value) Value {
+		return e.ts.Const(64, uint64(len(e.fsm().log)))
+	}
+	intrinsics["vfFSMutationName"] = func(e *Exec, fn *ssa.Function, a []Value) Value {
+		return e.fsm().log[e.argInt(a[0], "mutation index")].op
+	}
+	// vfFSRestore(i): the directory as it was right after mutation i (0 = before the first logged one is impossible: use vfFSMark)
+	intrinsics["vfFSRestore"] = func(e *Exec, fn *ssa.Function, a []Value) Value {
+		fs := e.fsm()
+		i := e.argInt(a[0], "mutation index")
+		snap := fs.log[i]
+		fs.files = map[string]*MemFile{}
+		for k, f := range snap.files {
+			fs.files[k] = &MemFile{data: append([]*Term(nil), f.data...), isDir: f.isDir}
+		}
+		return nil
+	}
+	// vfFSMark(): logs a no-op mutation carrying a snapshot of the current state; returns its index
+	intrinsics["vfFSMark"] = func(e *Exec, fn *ssa.Function, a []Value) Value {
+		fs := e.fsm()
+		fs.mutated("mark")
+		return e.ts.Const(64, uint64(len(fs.log)-1))
+	}
+	intrinsics["vfFSShortReads"] = func(e *Exec, fn *ssa.Function, a []Value) Value {
+		e.fsm().short = e.argInt(a[0], "short read size")
+		return nil
+	}
+}
